@@ -11,7 +11,7 @@ From Coq Require Import String List Bool Arith Lia.
 From TS Require Import Model.Str Model.Outcome Model.Unicode Model.Types Model.Parse Model.Lang.Common Model.Lang.Decl
                        Model.Lang.TypeScript Model.Lang.Kotlin Model.Lang.Swift Model.Lang.Scala Model.Lang.Go Model.Lang.Python.
 From TS Require Import Spec.C04Spec Spec.C04Readers.
-From TS Require Import Proofs.BackCommon Proofs.C04.
+From TS Require Import Proofs.BackCommon Proofs.C04 Proofs.GoAcronyms.
 Import ListNotations.
 Local Open Scope nat_scope.
 
@@ -535,6 +535,94 @@ Proof.
     rewrite ?expected_plain, ?expected_null_not_ts by discriminate; cbn [c04_expect_of c04e_ref]; congruence.
 Qed.
 End GO.
+
+(* ======================================================================================== Go, alphanumeric acronyms *)
+(* Proofs/GoAcronyms.v: for an ASCII printed type and alphanumeric acronyms the textual rewrite of go.rs:579
+   distributes over the separators of the type syntax, so the decided type is the tree rewritten name by name:
+   a leading `*` (and every `[`, `]`, `,`, digit) survives, and what stands under the `*` is exactly the
+   rewritten translation of T. *)
+Section GOACR.
+Variable uc : unicode.
+Hypothesis Huc : unicode_ok uc.
+Variable cfg : go_config.
+Hypothesis Hnps : go_no_pointer_slice cfg = false.
+Hypothesis Hacr : forallb (forallb ga_alnum) (go_uppercase_acronyms cfg) = true.
+
+Local Notation T := (ga_T cfg).
+
+Lemma go_map_is_gptr x : c04_is_gptr (ga_ty_map T x) = c04_is_gptr x.
+Proof. destruct x; reflexivity. Qed.
+Lemma go_map_strip_gptr x : c04_strip_gptr (ga_ty_map T x) = ga_ty_map T (c04_strip_gptr x).
+Proof. destruct x; reflexivity. Qed.
+Lemma go_strip_gptr_ascii x : ga_ascii (go_show x) -> ga_ascii (go_show (c04_strip_gptr x)).
+Proof. destruct x; auto. cbn [c04_strip_gptr]. change (go_show (GPtr x)) with (42%N :: go_show x). now inversion 1. Qed.
+
+Lemma go_texp_ascii_of g t s x s1 : ga_texp_asciib cfg t = true -> go_texp cfg g t s = Ok (x, s1) -> ga_ascii (go_show x).
+Proof. unfold ga_texp_asciib. intros H. apply andb_true_iff in H as [Hm Hi]. exact (ga_texp_ascii cfg g t Hm Hi s x s1). Qed.
+
+(* `X *T` + `,omitempty` iff Option or default; the reference text is the REWRITTEN translation of T *)
+Theorem go_field_good_acr f g s m s' decl :
+  type_override f Go = None ->
+  (is_optional (fty f) = true -> tmap_get (go_type_mappings cfg) (rtype_display (fty f)) = None) ->
+  ga_texp_asciib cfg (fty f) = true ->
+  go_member_of uc cfg g f s = Ok (m, s') ->
+  exists y s3 s4 y', go_texp cfg g (c04_strip (fty f)) s3 = Ok (y, s4) /\
+    (forall s5, go_acronyms_ty uc cfg y s5 = Ok (y', s5)) /\
+    good_C04 Go (c04_expect_of C04Field (fty f) (has_default f) (go_show y')) (c04r_seen (go_c04_member decl m)) = true.
+Proof.
+  intros Hov Hm Hasc H. unfold go_member_of in H. rewrite Hov in H.
+  apply mbind_ok in H as (x & s1 & Hx & H). apply mbind_ok in H as (gt & s2 & Hgt & H).
+  apply mbind_ok in H as (fname & s3 & _ & H). unfold ret in H. injection H as <- _.
+  pose proof (go_texp_ascii_of _ _ _ _ _ Hasc Hx) as Hax.
+  rewrite (ga_acronyms_ty uc Huc cfg Hacr x s1 Hax) in Hgt. injection Hgt as <- _.
+  destruct (go_texp_strip cfg Hnps _ _ _ _ _ Hm Hx) as (y & s4 & s5 & Hy & Hs & Hh).
+  exists y, s4, s5, (ga_ty_map T y). split; [exact Hy|]. split.
+  { intros s6. apply (ga_acronyms_ty uc Huc cfg Hacr). rewrite <- Hs. now apply go_strip_gptr_ascii. }
+  apply good_intro; unfold go_c04_member;
+    cbn [c04_mk c04r_seen c04s_type_mark c04s_init_mark c04s_base c04s_null_union gm_star gm_type gm_omitempty];
+    rewrite ?(expected_fieldlike C04Field _ _ _ eq_refl), ?expected_null_not_ts by discriminate; cbn [c04_expect_of c04e_ref].
+  - rewrite go_map_is_gptr, Hh. destruct (has_default f), (is_optional (fty f)); reflexivity.
+  - reflexivity.
+  - rewrite go_map_strip_gptr, Hs.
+    destruct (has_default f) eqn:Ed, (is_optional (fty f)) eqn:Eo; cbn [andb negb]; try reflexivity.
+    rewrite <- Hs. destruct x; try reflexivity; discriminate.
+  - reflexivity.
+Qed.
+
+Theorem go_payload_good_acr sh cs sn tag t vsh s v s' :
+  (is_optional t = true -> tmap_get (go_type_mappings cfg) (rtype_display t) = None) ->
+  ga_texp_asciib cfg t = true ->
+  go_variant_of uc cfg sh cs sn tag (VTuple t vsh) s = Ok (v, s') ->
+  exists x p y s3 s4 y', gv_content v = GCType x p /\ go_texp cfg [] (c04_strip t) s3 = Ok (y, s4) /\
+    (forall s5, go_acronyms_ty uc cfg y s5 = Ok (y', s5)) /\
+    forall decl member, good_C04 Go (c04_expect_of C04Payload t false (go_show y')) (c04r_seen (go_c04_typed decl member C04Payload x)) = true.
+Proof.
+  intros Hm Hasc H. unfold go_variant_of in H. apply mbind_ok in H as (vn & s1 & _ & H).
+  apply mbind_ok in H as (vt & s2 & Hvt & H). apply mbind_ok in H as (tp & s3 & _ & H).
+  apply mbind_ok in H as (content & s4 & Hc & H). unfold ret in H. injection H as <- _.
+  cbn [gv_content]. apply mbind_ok in Hvt as (x & s5 & Hx & Hvt). unfold ret in Hvt. injection Hvt as <- _.
+  apply mbind_ok in Hc as (fvt & s6 & Hf & Hc). unfold ret in Hc. injection Hc as <- _.
+  pose proof (go_texp_ascii_of _ _ _ _ _ Hasc Hx) as Hax.
+  rewrite (ga_acronyms_ty uc Huc cfg Hacr x _ Hax) in Hf. injection Hf as <- _.
+  destruct (go_texp_strip cfg Hnps _ _ _ _ _ Hm Hx) as (y & s7 & s8 & Hy & Hs & Hh).
+  exists (ga_ty_map T x), (mem_str (go_show x) cs), y, s7, s8, (ga_ty_map T y). repeat split; [exact Hy| |].
+  { intros s9. apply (ga_acronyms_ty uc Huc cfg Hacr). rewrite <- Hs. now apply go_strip_gptr_ascii. }
+  intros. apply good_intro; cbn [go_c04_typed c04_mk c04r_seen c04s_type_mark c04s_init_mark c04s_base c04s_null_union];
+    rewrite ?expected_plain, ?expected_null_not_ts by discriminate; cbn [c04_expect_of c04e_ref];
+    rewrite ?go_map_is_gptr, ?go_map_strip_gptr; congruence.
+Qed.
+End GOACR.
+
+(* the hypotheses are satisfiable with a real rewrite under the `*`: Option<UserId> with acronym ID is `*UserID` *)
+Example go_field_good_acr_nonvacuous :
+  let cfg := {| go_package := lit "p"; go_type_mappings := []; go_uppercase_acronyms := [lit "ID"]; go_no_version_header := true;
+                go_no_pointer_slice := false; go_version := [] |} in
+  let f := {| fid := {| original := lit "owner_id"; renamed := lit "owner_id"; via_serde_rename := false |};
+              fty := ROption (RSimple (lit "UserId")); fcomments := []; has_default := false; fdecs := [] |} in
+  forallb (forallb ga_alnum) (go_uppercase_acronyms cfg) = true /\ ga_texp_asciib cfg (fty f) = true /\
+  exists m st, go_member_of uc_exec cfg [] f [] = Ok (m, st) /\ gm_name m = lit "OwnerID" /\
+               go_show (gm_type m) = lit "*UserID".
+Proof. cbv zeta. split; [reflexivity|]. split; [reflexivity|]. eexists _, _. repeat split; vm_compute; reflexivity. Qed.
 
 (* ======================================================================================== Go, any acronyms *)
 (* the two marker parts write_field decides itself do not depend on the acronym rewrite: for EVERY
